@@ -323,7 +323,7 @@ func (g *e2eGen) newPlan(id int) *callPlan {
 	tp := g.rc.Tape
 	p := &callPlan{id: id, tag: fmt.Sprintf("t%d", id), outcome: "ok"}
 	g.headers(p)
-	methods := []string{"basePing", "baseNote", "echoItem", "doVoid", "add", "blob", "bigString", "mixed", "URLFor", "many", "choose", "color", "stamp", "headersSeen", "fire"}
+	methods := []string{"basePing", "baseNote", "echoItem", "doVoid", "add", "blob", "bigString", "mixed", "URLFor", "shapes", "many", "choose", "color", "stamp", "headersSeen", "fire"}
 	switch g.rc.Prop {
 	case "C16":
 		methods = []string{"basePing", "basePing", "basePing", "basePing", "echoItem", "doVoid", "fire", "baseNote"}
@@ -395,6 +395,44 @@ func (g *e2eGen) newPlan(id int) *callPlan {
 		}
 		p.args = []any{mk()}
 		p.ret = mk()
+	case "shapes":
+		// one method with the shapes a generator sees rarely: typedef'd nested containers as argument and
+		// return type, sparse and unordered field ids, i8/i16/double, binary inside a list, enum-keyed maps,
+		// a defaulted field, a union, arguments named like the generator's locals, exceptions of two files
+		deep := func() simsvc.Deep {
+			d := simsvc.Deep{}
+			for i, n := 0, tp.Intn("val", 3); i < n; i++ {
+				var l []map[int64]bool
+				for j, m := 0, tp.Intn("val", 3); j < m; j++ {
+					set := map[int64]bool{}
+					for k, q := 0, tp.Intn("val", 3); k < q; k++ {
+						set[int64(tp.Intn("val", 1000))-500] = true
+					}
+					l = append(l, set)
+				}
+				d["d"+genString(tp, "val", 3)] = l
+			}
+			return d
+		}
+		paint := simsvc.Paint([]simsvc.Color{1, 2, 5}[tp.Intn("val", 3)])
+		odd := &simsvc.Odd{Neg: genString(tp, "val", 5), Five: int32(tp.Intn("val", 100)) - 50, Big: tp.Intn("val", 2) == 1, B: int8(tp.Intn("val", 256) - 128),
+			S: int16(tp.Intn("val", 65536) - 32768), D: float64(tp.Intn("val", 1000))/7 - 50, Bins: [][]byte{[]byte(genString(tp, "val", 4)), {0, 255}},
+			ByColor: map[simsvc.Color]*simsvc.Mixed{2: {Pad: "g", Flags: []bool{true, false}}}, Dflt: []string{"dv", "", "other"}[tp.Intn("val", 3)]}
+		if tp.Intn("val", 2) == 1 {
+			odd.Paint = &paint
+		}
+		txt := genString(tp, "val", 6)
+		p.args = []any{deep(), odd, paint, int16(tp.Intn("val", 65536) - 32768), int8(tp.Intn("val", 256) - 128), float64(tp.Intn("val", 100000)) / 16,
+			genString(tp, "val", 5), genString(tp, "val", 5), [][]byte{[]byte(genString(tp, "val", 6))}, map[simsvc.Paint]string{paint: "p", 5: genString(tp, "val", 3)}, &simsvc.Choice{Text: &txt}}
+		p.outcome = outcome("ok", "ok", "ex1", "ex2", "undeclared", "appex")
+		switch p.outcome {
+		case "ok":
+			p.ret = deep()
+		case "ex1":
+			p.ret = &simbase.BaseErr{Why: genString(tp, "val", 6), Code: int32(tp.Intn("val", 100))}
+		case "ex2":
+			p.ret = &simsvc.NotFound{Key: genString(tp, "val", 6)}
+		}
 	case "URLFor":
 		// a method (and argument names) starting with capitalised initialisms: every name-casing rule of the generator applies
 		p.args = []any{genString(tp, "val", 6), int32(tp.Intn("val", 600))}
